@@ -32,6 +32,12 @@ def cases(rng, tier):
         idle = sorted(rng.sample(range(nq), nidle))
         instrs = gen.rand_instrs(rng, nq, rng.randint(0, 10), idle=idle)
         kind = rng.choice(["separate", "separate", "partition_problem", "partition_problem", "partition_circuit_qubits"])
+        big3 = False
+        live_q = [q for q in range(nq) if q not in idle]
+        if len(live_q) >= 3 and rng.random() < 0.2:
+            # an instruction on three qubits (in any argument order): all of them belong to one connected component
+            instrs.insert(rng.randint(0, len(instrs)), {"name": rng.choice(["ccx", "cswap", "ccz"]), "qubits": rng.sample(live_q, 3)})
+            big3 = True
         npart = rng.randint(1, min(4, nq))
         pool_idx = rng.sample(range(len(gen.LABEL_POOL)), npart)
         mode = rng.random()
@@ -46,6 +52,8 @@ def cases(rng, tier):
                     bases.append({"kind": "gate", "gate": g[0], "params": g[1]})
                     instrs.insert(rng.randint(0, len(instrs)), {"name": "qpd_2q", "qubits": rng.sample(live, 2),
                                                                "basis": len(bases) - 1, "label": rng.choice([None, "pre"])})
+        if big3 and mode < 0.6:
+            mode = 0.1 if kind == "separate" else 0.2   # mostly automatic labels for the three-qubit family
         if kind == "separate":
             # labels must be consistent with the circuit, otherwise expect ValueError
             if mode < 0.25:
@@ -78,7 +86,7 @@ def cases(rng, tier):
             instrs.insert(rng.randint(0, len(instrs)), {"name": "ccx", "qubits": rng.sample(range(nq), 3)}) if nq >= 3 else None
         cregs = [["c", 1]] if (kind != "separate" and rng.random() < 0.04) else ([["c", 2]] if kind == "separate" and rng.random() < 0.2 else [])
         yield (kind, {"nq": nq, "qregs": gen.rand_regs(rng, nq), "instrs": instrs, "labels": labels, "pool_idx": pool_idx,
-                      "obs": obs, "bases": bases, "cregs": cregs})
+                      "obs": obs, "bases": bases, "cregs": cregs, "prewarm": bool(bases) and rng.random() < 0.3})
 
 
 def _consistent_labels(rng, nq, instrs, idle, npart):
@@ -110,6 +118,11 @@ def _consistent_labels(rng, nq, instrs, idle, npart):
 def _objs(payload):
     bases = [canon.build_basis(b) for b in payload["bases"]]
     qc = canon.build_circuit({"nq": payload["nq"], "qregs": payload["qregs"], "cregs": payload["cregs"], "instrs": payload["instrs"]}, bases)
+    if payload.get("prewarm"):
+        # history: the definition of every pre-placed placeholder was read earlier (drawing, decompose(), transpiling ...)
+        for inst in qc.data:
+            if inst.operation.name == "qpd_2q":
+                _ = inst.operation.definition
     labels = None if payload["labels"] is None else gen.labels_from_idx(payload["labels"], payload["pool_idx"])
     obs = None
     if payload["obs"] is not None:
@@ -263,6 +276,21 @@ def _oracle_partition_problem(payload, real, used):
             return f"raised {real['error']}"
         return None if legit else "a valid partitioning request was refused"
     res = real["ok"]
+    # the basis recorded for cut d must decompose the d-th gate that spans partitions (not another gate of the same name)
+    try:
+        from qiskit_addon_cutting import partition_problem
+        from qiskit_addon_cutting.qpd import QPDBasis
+        qc_, bases_, labels_, obs_ = _objs(payload)
+        pp = partition_problem(qc_, labels_, obs_)
+        spanning = [i for i in qc_.data if i.operation.name != "barrier" and len(i.qubits) == 2
+                    and len({eff[qc_.find_bit(q).index] for q in i.qubits}) > 1]
+        if len(spanning) == len(pp.bases):
+            for d, (inst, b) in enumerate(zip(spanning, pp.bases)):
+                want = inst.operation.basis if inst.operation.name == "qpd_2q" else QPDBasis.from_instruction(inst.operation)
+                if canon.canon_basis(want) != canon.canon_basis(b):
+                    return f"bases[{d}] is not the decomposition of the {d}-th spanning gate ({inst.operation.name}{list(inst.operation.params)})"
+    except ValueError:
+        pass
     keys = [l for l, _ in res["subcircuits"]]
     if res["subobs"] is not None:
         if sorted(map(repr, [l for l, _ in res["subobs"]])) != sorted(map(repr, keys)):
